@@ -336,6 +336,11 @@ func (self *visitorUserNode) OnInt64(v int64, n json.Number) error {
 		if err = self.p.WriteInt64(v); err != nil {
 			return err
 		}
+	// enum by number
+	case proto.EnumKind:
+		if err = self.p.WriteEnum(proto.EnumNumber(int32(v))); err != nil {
+			return err
+		}
 	case proto.Sint64Kind:
 		if err = self.p.WriteSint64(v); err != nil {
 			return err
